@@ -44,14 +44,7 @@ structure Env where
   doc : Txt
   raw : List Txt           -- lines doc
   jr : Journal
-  crlf : Bool
   fx : Fixes
-
-/-- The end of a range is the position just after a line's CR (CRLF documents). -/
-def afterCR (e : Env) (l c : Nat) : Bool :=
-  match e.raw[l]? with
-  | some ln => ln.getLast? == some '\r' && c == u16len ln
-  | none => false
 
 /-- Is the transaction header "date [status] payee" with single blanks up to the payee? -/
 def payeeCanonical (e : Env) (h : Hit) : Bool :=
@@ -172,7 +165,7 @@ def doc (j : Json) : Json := Id.run do
   let fxj := jget j "fx"
   let fx : Fixes := ⟨jbool fxj "link", jbool fxj "fold"⟩
   let lns := lines text
-  let e : Env := { doc := text, raw := lns, jr := jr, crlf := text.contains '\r', fx := fx }
+  let e : Env := { doc := text, raw := lns, jr := jr, fx := fx }
   -- model
   let mDiag := diagnostics lns perrs diagIn loadIn
   let mSym := documentSymbols lns jr
